@@ -6,6 +6,7 @@ func init() {
 	vfRegister("VfC08_flush_q", VfC08_flush_q)
 	vfRegister("VfC08_flush_t", VfC08_flush_t)
 	vfRegister("VfC08_flush_qx", VfC08_flush_qx)
+	vfRegister("VfC08_flush_history", VfC08_flush_history)
 }
 
 // vfFlushRun: canonical pre-state (groups may carry backup groups: shared, missing or
@@ -35,8 +36,13 @@ func vfFlushRunP(pre vfPreCfg, fixLow, splitLow, rich, order, post bool) {
 	case 2:
 		nis = []string{"DEFAULT", "VRF-A"}
 	}
+	// the whole-RIB view is read before and after the Flush (it must never be a stale copy)
+	if _, cerr := r.RIBContents(); cerr != nil {
+		vfAssert(false, "C01:rib-contents-readable")
+	}
 	err := r.Flush(nis)
 	ref.flush(nis)
+	ref.compareContents(r)
 	// every entry of the selected instances is gone, the others are intact, counters match what remains
 	ref.compare(r)
 	for _, n := range nis {
@@ -57,6 +63,47 @@ func vfFlushRunP(pre vfPreCfg, fixLow, splitLow, rich, order, post bool) {
 		}
 		ref.compare(r)
 	}
+	vfReach("end")
+}
+
+// VfC08_flush_history: a fixed five-step shape with symbolic choices - next-hop 1 + group g in DEFAULT, an IPv4 /
+// IPv6 / label entry in VRF-A pointing at (DEFAULT, g); Flush of DEFAULT only; then optionally the DELETE of the
+// (now dangling) entry while the group is absent; then next-hop and group are programmed again and the group is
+// deleted: refused exactly while an installed entry still points at it, accepted otherwise.
+func VfC08_flush_history() {
+	r, ref := vfNewPair(true)
+	g := &vfGen{}
+	must := func(d *vfOpD, want int) { vfAssume(vfSubmit(r, ref, d) == want) }
+	gid := vfU64("g")
+	must(&vfOpD{id: g.id(), typ: vfADD, kind: vfKNH, ni: "DEFAULT", idx: 1, hasBody: true}, vfStAcked)
+	must(&vfOpD{id: g.id(), typ: vfADD, kind: vfKNHG, ni: "DEFAULT", idx: gid, hasBody: true, members: []vfMember{{idx: 1}}}, vfStAcked)
+	ent := &vfOpD{id: g.id(), typ: vfADD, kind: vfTopAll[vfInt("kind", 0, 2)], ni: "VRF-A", hasBody: true, hasNHG: true, nhg: gid, hasNHGNI: true, nhgNI: "DEFAULT"}
+	switch ent.kind {
+	case vfKV4:
+		ent.pfx = vfStrK("pfx", "prefix4")
+	case vfKV6:
+		ent.pfx = vfStrK("pfx6", "prefix6")
+	default:
+		ent.label = 100
+	}
+	must(ent, vfStAcked)
+	vfReach("pre-built")
+	vfAssert(r.Flush([]string{"DEFAULT"}) == nil, "C08:flush-answers-ok-when-everything-was-removed")
+	ref.flush([]string{"DEFAULT"})
+	ref.compare(r)
+	if vfBool("delete-referrer-while-group-absent") {
+		del := *ent
+		del.id, del.typ = g.id(), vfDELETE
+		must(&del, vfStAcked)
+		vfReach("referrer-deleted")
+	}
+	must(&vfOpD{id: g.id(), typ: vfADD, kind: vfKNH, ni: "DEFAULT", idx: 1, hasBody: true}, vfStAcked)
+	must(&vfOpD{id: g.id(), typ: vfADD, kind: vfKNHG, ni: "DEFAULT", idx: gid, hasBody: true, members: []vfMember{{idx: 1}}}, vfStAcked)
+	ref.compare(r)
+	if vfSubmit(r, ref, &vfOpD{id: g.id(), typ: vfDELETE, kind: vfKNHG, ni: "DEFAULT", idx: gid, hasBody: true}) == vfStFailed {
+		vfReach("post-delete-refused")
+	}
+	ref.compare(r)
 	vfReach("end")
 }
 
